@@ -241,6 +241,19 @@ def run_case(case, rec):
         if not close(float(td), sum(float(v) for v in tt.values()), 1e-12, 1e-14):
             rec.violation("total-not-sum/%s/default-weights" % sigk, "total %r != sum of terms with default weights" % float(td))
     # ---------------------------------------------------------------- metamorphic relations
+    # one weight for all components may be spelled as a Python number, a 0-d array or a (1,) array
+    if not case["wvec"] and case["seed"] % 3 == 2:
+        for form, wform in (("0-d", jnp.asarray(wdyn)), ("(1,)", jnp.asarray([wdyn]))):
+            lf = eqx.tree_at(lambda l: l.loss_weights.dyn_loss, loss, wform)
+            rec.count("scalar_weight_given_as_array")
+            try:
+                gf = float(guard.call_supported(ev, lf, params, batch)[1]["dyn_loss"])
+            except guard.Crash as c:
+                rec.violation("dyn-term/%s/scalar-weight-as-%s-array/refused" % (sigk, form), "a scalar weight given as a %s array: %s" % (form, c))
+                continue
+            if not close(gf, got, 1e-10, 1e-12):
+                rec.violation("dyn-term/%s/scalar-weight-as-%s-array" % (sigk, form),
+                              "dynamic term %r with the weight given as a %s array, %r as a Python number" % (gf, form, got))
     # linear in the weight: any factor, negative ones included (the weight is a coefficient, not a scale of the residual)
     for a in (2.75, -1.5 if case["seed"] % 2 else 0.0):
         loss_a = eqx.tree_at(lambda l: l.loss_weights.dyn_loss, loss, (jnp.asarray(wdyn) * a) if case["wvec"] else wdyn * a)
